@@ -902,6 +902,14 @@ Proof.
   - unfold unverified_match in Hg. rewrite forallb_forall in Hg. exact Hg.
 Qed.
 
+Lemma ListedBy_inv : forall w OK fm i pr kids feat,
+    ListedBy w OK (Tree fm i pr kids) feat ->
+    (exists rb, In (rb, None) (kids_list kids) /\ rb_class rb = CInternal)
+    \/ (exists rb t, In (rb, Some t) (kids_list kids) /\ OK rb).
+Proof.
+  intros w OK fm i pr kids feat H. inversion H; subst; eauto.
+Qed.
+
 (* The unguarded statement is false of the code: a remote basin is appended
    without looking at its identifier, and features_basin lists its features
    (reading them raises KeyError).  Root served over HTTP with identifier
@@ -931,10 +939,9 @@ Proof.
     cbn in Ht. inversion Ht; subst j. cbn in Hm.
     destruct Hm as [c [Hc [Hs _]]]. inversion Hc; subst c.
     specialize (Hs eq_refl). discriminate. }
-  intros H. inversion H; subst.
-  - cbn in H4. destruct H4 as [H4|[]]. discriminate.
-  - eapply Hno; eauto.
-  - eapply Hno; eauto.
+  intros H. apply ListedBy_inv in H.
+  destruct H as [[rb [Hin _]] | [rb [t [Hin Hm]]]].
+  - cbn in Hin. destruct Hin as [Hin|[]]. discriminate.
   - eapply Hno; eauto.
 Qed.
 
